@@ -254,8 +254,12 @@ def mutators(ctx):
             continue
         ctx.ob(R, 'EnvVarDict.' + name + '|overridden', True, fn, '')
         fi = fn._func
+        # in the method itself or in a helper method of the class it calls
         direct_ = any(has(t, 'self', '_changes') or has(t, 'self', 'changes')
-                      for t, v, n in F.stores(fi))
+                      for g, b in F.frames(fi, 1)
+                      if g.cls is ci and g.node.name not in DICT_MUTATORS
+                      or g is fi
+                      for t, v, n in F.stores(g, b))
         deleg = set()
         for g in F.reach(fi, 1):
             if g.cls is not ci and g is not fi:
@@ -301,11 +305,18 @@ def mutators(ctx):
                     ok = True
         ctx.ob(R, 'EnvVarDict.__setitem__|str-check', ok, fn,
                'non-string keys/values are accepted')
-        recs = [n for t, v, n in F.stores(fi)
-                if has(t, 'self', 'changes') or has(t, 'self', '_changes')]
+        recs = []
+        for g, b, path in F.frames_p(fi, 1):
+            if g.cls is not ci or (g is not fi and
+                                   g.node.name in DICT_MUTATORS):
+                continue
+            for t, v, n in F.stores(g, b):
+                if has(t, 'self', 'changes') or has(t, 'self', '_changes'):
+                    recs.append(path + ((g, n),))
         ok = bool(recs) and all(
-            all(has_call(F.atoms(t, fi), 'isinstance')
-                for t in F.guards(n, fi)) for n in recs)
+            all(has_call(F.atoms(t, f_), 'isinstance')
+                for f_, n_ in pth for t in F.guards(n_, f_))
+            for pth in recs)
         ctx.ob(R, 'EnvVarDict.__setitem__|records-every-assignment', ok, fn,
                'an assignment is recorded in `changes` only under a '
                'condition: the variables a toolchain file or script sets '
@@ -802,9 +813,9 @@ def load_only(ctx):
                     return False
         return True
     ok = bool(muts) and all(any(
-        not pos and has(F.atoms(t, idf), 'regenerating') and
+        not pos and has(F.atoms(t, f_, b_), 'regenerating') and
         any_regeneration(t)
-        for t, pos in F.guards_pol(n, idf)) for n in muts)
+        for t, pos, f_, b_ in F.guard_leaves(n, idf)) for n in muts)
     ctx.ob(R, 'toolchain.install_dirs|noop-when-regenerating', ok, idf.node,
            'install_dirs of the toolchain file overrides the saved (possibly '
            'command-line) install directories on regeneration')
